@@ -81,6 +81,9 @@ func NewSqlite(path string, cfg *SqliteConfig) (*Sqlite, error) {
 	connParams.Add("_pragma", "synchronous(NORMAL)")
 	// Enforce foreign key constraints.
 	connParams.Add("_pragma", "foreign_keys(1)")
+	// The driver in use (mattn/go-sqlite3) ignores "_pragma"; it enables foreign key
+	// enforcement (needed for ON DELETE CASCADE) through "_foreign_keys".
+	connParams.Add("_foreign_keys", "1")
 	// Use shared cache for in-memory databases to allow multiple connections.
 	if c.InMemory {
 		registerMemoryDB(noFile)
